@@ -37,7 +37,7 @@ func (world) Level() string    { return "exploration" }
 
 func (world) Describe() super.Description {
 	return super.Description{
-		Rule:        "A case = one base text (a tape-generated valid module or submodule rendered with lexical variety: unquoted/single/double-quoted/'+'-concatenated arguments, comments between tokens, CRLF, tabs; or an ill-formed module; or a structurally damaged module — one or two whole statements dropped, duplicated, moved into another block or swapped, a keyword replaced, an argument removed/added/garbled, the text staying lexically well-formed; or a raw byte/token string) and one fault operator applied to it: none; truncation at EVERY byte offset (exhaustive for that text, up to 1500 bytes, else a drawn window); 1..3 byte flips/inserts/deletes; token drop/duplicate/swap; trailing garbage after the final '}'; an early statement that fails its check; a sequence of 2..4 parses sharing one pair of interners; or an ARGUMENT SWEEP (for every keyword of the module whose argument has a grammar of its own — value, position, min/max-elements, fraction-digits, range, length, dates, booleans, key, unique, path — one statement of it takes each of 28, for numbers 55, garbled arguments in turn). All parses of a case run inside one synctest bubble; in a third of the cases up to six of the same inputs are parsed again in SCHEDULE MODE: lexer goroutine and parser become workers of the tape-driven baton scheduler, their channel is simulated (simrewrite R4 on package parse: go statement, send, receive, close, range over channel) and 288 yield points are instrumented, so every interleaving decision is a tape draw; the outcome must equal the free-running one and nothing may stay blocked. distinct_nontrivial = distinct non-empty input texts actually parsed (hash of the bytes).",
+		Rule:        "A case = one base text (a tape-generated valid module or submodule rendered with lexical variety: unquoted/single/double-quoted/'+'-concatenated arguments, comments between tokens, CRLF, tabs; or an ill-formed module; or a structurally damaged module — one or two whole statements dropped, duplicated, moved into another block or swapped, a keyword replaced, an argument removed/added/garbled, the text staying lexically well-formed; or a raw byte/token string) and one fault operator applied to it: none; truncation at EVERY byte offset (exhaustive for that text, up to 1500 bytes, else a drawn window); 1..3 byte flips/inserts/deletes; token drop/duplicate/swap; trailing garbage after the final '}', and the same text followed by trivia only (a // comment without newline, /* */, blanks) at bracket depth 0; an early statement that fails its check; a sequence of 2..4 parses sharing one pair of interners; or an ARGUMENT SWEEP (for every keyword of the module whose argument has a grammar of its own — value, position, min/max-elements, fraction-digits, range, length, dates, booleans, key, unique, path — one statement of it takes each of 28, for numbers 55, garbled arguments in turn). All parses of a case run inside one synctest bubble; in a third of the cases up to six of the same inputs are parsed again in SCHEDULE MODE: lexer goroutine and parser become workers of the tape-driven baton scheduler, their channel is simulated (simrewrite R4 on package parse: go statement, send, receive, close, range over channel) and 288 yield points are instrumented, so every interleaving decision is a tape draw; the outcome must equal the free-running one and nothing may stay blocked. distinct_nontrivial = distinct non-empty input texts actually parsed (hash of the bytes).",
 		DistinctSet: "texts",
 		Assumptions: []string{
 			"testing/synctest (go1.26.8): Wait() returns only when every other goroutine of the bubble is durably blocked or gone; a goroutine count that stays above the pre-call count after Wait() is a goroutine that will never finish",
@@ -49,7 +49,7 @@ func (world) Describe() super.Description {
 			"real": []string{"parse (lex.go goroutine+channel, parse.go, ast/arg/cardinality checks, symbol tables)"},
 			"stub": []string{"none (the text is the only other party); NodeCardinality callback for extensions is nil or a two-entry table"},
 		},
-		FaultKinds: []string{"schedule-switch", "structure:stmt-drop", "structure:stmt-dup", "structure:stmt-move", "structure:stmt-swap", "structure:keyword", "structure:arg-toggle", "structure:arg-garble", "truncate", "byte-flip", "byte-insert", "byte-delete", "token-drop", "token-dup", "token-swap", "trailing-garbage", "early-check-failure", "shared-interner-sequence", "argument-garble-sweep"},
+		FaultKinds: []string{"schedule-switch", "structure:stmt-drop", "structure:stmt-dup", "structure:stmt-move", "structure:stmt-swap", "structure:keyword", "structure:arg-toggle", "structure:arg-garble", "truncate", "byte-flip", "byte-insert", "byte-delete", "token-drop", "token-dup", "token-swap", "trailing-garbage", "trailing-trivia", "early-check-failure", "shared-interner-sequence", "argument-garble-sweep"},
 	}
 }
 
@@ -612,6 +612,12 @@ func (w world) RunCase(t *tape.Tape, st *super.Stats) *super.Violation {
 		g := []string{" trailing;", "}", " leaf x { type string; }", "\n\nmodule b { namespace \"urn:b\"; prefix b; }", " \"open", " /* open", "x"}[t.Draw(7)]
 		ins = []input{{name, base + g}}
 		inc("fault:trailing-garbage")
+		// trailing TRIVIA after the same text (f21c): the text ends inside or right after a comment or blanks at bracket depth 0.
+		// No tape draws, so stored replays keep their meaning.
+		for _, tr := range []string{" // end of module", "//", "\n// a\n// b", " /* done */", " /* done */ // and more", "\n\n \t", " // x\n", "\r\n//\r"} {
+			ins = append(ins, input{name, base + tr})
+		}
+		inc("fault:trailing-trivia")
 	case 5: // an early statement fails its check in a long text
 		i := strings.Index(base, "{")
 		s := base
